@@ -415,6 +415,9 @@ def judge_churn(scn):
     image2 = len(rec2).to_bytes(4, "big") + rec2 + b"\x00\x00\x00\x00"
     fails = []
     n = scn["churn"]["iterations"]
+    ctl = decode.run_reader(image2, "IpmReader", False, enc=enc, cfg=_copy.deepcopy(pk))
+    if ctl.kind != "stop" or len(ctl.items) != 1:
+        return [], 0        # the record is not even readable under the plain configuration: not C10's ground
     one = _copy.deepcopy(pk)             # ONE caller-owned configuration edited in place between readers
     for it in range(n):
         same_object = it >= n // 2
